@@ -45,8 +45,8 @@ GRAMMAR_ORDER = {
     "quick": ["assgn", "rightrec", "nullable", "num", "multichar", "xmlish", "csvish"],
     "thorough": ["assgn", "rightrec", "leftrec", "nullable", "ambig", "num", "multichar", "xmlish", "csvish", "altstart", "wide"],
 }
-TREE_CAP = {"quick": 16, "thorough": 150}
-INT_TREE_CAP = {"quick": 6, "thorough": 40}  # formulas with numeric quantifiers go through Z3
+TREE_CAP = {"quick": 12, "thorough": 40}
+INT_TREE_CAP = {"quick": 5, "thorough": 12}  # formulas with numeric quantifiers go through Z3
 CASE_TIMEOUT = {"quick": 60, "thorough": 600}  # CPU seconds per formula (all rewrites, all trees)
 BINARY = ("f&g", "g&f", "f|g", "g|f")
 
@@ -264,8 +264,9 @@ def run(rep, tier, seed):
         "predicates, constants), (b) seeded random specifications of depth <= 3 with arity 2-4 built through the "
         "isla.language constructors, (c) formulas returned by parse_isla; rewrites: -f, NegatedFormula(f), "
         "convert_to_nnf (also negate=True), convert_to_dnf(convert_to_nnf(f)) deep and shallow, nnf of that, "
-        "ensure_unique_bound_variables (also after nnf), --f, f&f, f|f, f&-f, f|-f, f&Not(f), Not(f)|f and "
-        "f&g, g&f, f|g, g|f for g in {true, false, SMT atom, count atom, quantified formula}; a case = "
+        "ensure_unique_bound_variables, --f, f&f, f&-f, f|-f, Not(f)|f and f&g, g|f for g in {true, false, SMT atom, "
+        "quantified formula}, g&f, f|g for g in {true, false} (thorough tier: also nnf(dnf(nnf)), unique-vars(nnf), f|f, "
+        "f&Not(f) and all four combinator orders with a count atom as well); a case = "
         "(formula, rewrite, tree) with a TRUE/FALSE base verdict"
     )
     rep.bound(
